@@ -1,0 +1,5 @@
+// Package verifjson re-exports, under the build tag verif only, the @fp.Json value types of the
+// internal example packages so that the verification harness (a separate module, which cannot
+// import internal packages) can exercise their generated MarshalJSON/UnmarshalJSON.
+// Without the tag the package is empty.
+package verifjson
